@@ -41,6 +41,19 @@ Theorem C16_SE3_R_structural : forall (T : Type) (O : ops T) (t : T) (v : V3 T),
 Proof. intros; destruct v as [[x y] z]; repeat split; reflexivity. Qed.
 Print Assumptions C16_SE3_R_structural.
 
+(* SE3.Rx/Ry/Rz(theta, 'deg') (repaired by 61ca10f) = the radian pose at k*theta, value and structure (conversion) *)
+Theorem C16_SE3_R_deg : forall (T : Type) (O : ops T) (k t : T),
+  tr_SE3_Rx_deg O k t = tr_SE3_Rx O (mul O k t) /\ tr_SE3_Ry_deg O k t = tr_SE3_Ry O (mul O k t) /\
+  tr_SE3_Rz_deg O k t = tr_SE3_Rz O (mul O k t).
+Proof. intros; repeat split; reflexivity. Qed.
+Print Assumptions C16_SE3_R_deg.
+
+Theorem C16_SE3_R_deg_value : forall k t : R,
+  tr_SE3_Rx_deg Rops k t = r2t3 Rops (rotx_ref Rops (k * t)) /\ tr_SE3_Ry_deg Rops k t = r2t3 Rops (roty_ref Rops (k * t)) /\
+  tr_SE3_Rz_deg Rops k t = r2t3 Rops (rotz_ref Rops (k * t)).
+Proof. intros; repeat split; gen_ring. Qed.
+Print Assumptions C16_SE3_R_deg_value.
+
 Theorem C16_SE3_T_structural : forall (T : Type) (O : ops T) (x y : T),
   tr_SE3_Tx O x = transl_ref O x (zero O) (zero O) /\ tr_SE3_Ty O x = transl_ref O (zero O) x (zero O) /\
   tr_SE3_Tz O x = transl_ref O (zero O) (zero O) x /\
@@ -53,7 +66,10 @@ Theorem C16_Twist3_R_structural : forall (T : Type) (O : ops T) (t k : T),
   tr_Twist3_Ry O t = (zero O, zero O, zero O, zero O, t, zero O) /\
   tr_Twist3_Rz O t = (zero O, zero O, zero O, zero O, zero O, t) /\
   tr_Twist3_Rx_deg O k t = tr_Twist3_Rx O (mul O k t) /\ tr_Twist3_Ry_deg O k t = tr_Twist3_Ry O (mul O k t) /\
-  tr_Twist3_Rz_deg O k t = tr_Twist3_Rz O (mul O k t).
+  tr_Twist3_Rz_deg O k t = tr_Twist3_Rz O (mul O k t) /\
+  (* the scalar call form (repaired by e531d4d) means the same as the one-element list *)
+  tr_Twist3_Rx_scalar O t = tr_Twist3_Rx O t /\ tr_Twist3_Ry_scalar O t = tr_Twist3_Ry O t /\
+  tr_Twist3_Rz_scalar O t = tr_Twist3_Rz O t.
 Proof. intros; repeat split; reflexivity. Qed.
 Print Assumptions C16_Twist3_R_structural.
 
@@ -217,3 +233,51 @@ Print Assumptions C16_SE2_SO2_ops_value.
 Theorem C16_SE2_mul_structural : forall (T : Type) (O : ops T) (X Y : M33 T), matches O pat_hom33 (fl33 (tr_SE2_mul O X Y)).
 Proof. intros; destruct_tuples; repeat split; reflexivity. Qed.
 Print Assumptions C16_SE2_mul_structural.
+
+(* symbolic SE2 / SO2 inverse and division (repaired by d486d19 + 1c511ed: object-aware rt2tr, check=False) *)
+Theorem C16_SE2_SO2_inv_value : forall (X Y : M33 R) (A B : M22 R),
+  tr_SE2_inv Rops X = trinv2_ref Rops X /\ tr_SE2_div Rops X Y = mmul33 Rops (as_pose3 Rops X) (trinv2_ref Rops Y) /\
+  tr_SO2_inv Rops A = mtr22 A /\ tr_SO2_div Rops A B = mmul22 Rops A (mtr22 B).
+Proof. intros; repeat split; gen_ring. Qed.
+Print Assumptions C16_SE2_SO2_inv_value.
+
+Theorem C16_SE2_SO2_inv_structural : forall (T : Type) (O : ops T) (X Y : M33 T) (A : M22 T),
+  matches O pat_hom33 (fl33 (tr_SE2_inv O X)) /\ t2r2 (tr_SE2_inv O X) = mtr22 (t2r2 X) /\
+  matches O pat_hom33 (fl33 (tr_SE2_div O X Y)) /\ tr_SO2_inv O A = mtr22 A /\
+  (* the SE(2) inverse is the same function as base.trinv2 *)
+  tr_SE2_inv O X = tr_trinv2 O X.
+Proof. intros; destruct_tuples; repeat split; reflexivity. Qed.
+Print Assumptions C16_SE2_SO2_inv_structural.
+
+Theorem C16_SO2_group : forall A B : M22 R, SO2 A -> SO2 B ->
+  SO2 (tr_SO2_mul Rops A B) /\ SO2 (tr_SO2_inv Rops A) /\ tr_SO2_mul Rops A (tr_SO2_inv Rops A) = I22 Rops /\
+  tr_SO2_div Rops A A = I22 Rops /\ SO2 (tr_SO2_div Rops A B).
+Proof.
+  intros A B HA HB.
+  destruct (C16_SE2_SO2_ops_value (I33 Rops) (I33 Rops) A B (0,0)) as (_ & _ & -> & _).
+  destruct (C16_SE2_SO2_inv_value (I33 Rops) (I33 Rops) A B) as (_ & _ & -> & ->).
+  destruct (C16_SE2_SO2_inv_value (I33 Rops) (I33 Rops) A A) as (_ & _ & _ & ->).
+  destruct (C16_SE2_SO2_ops_value (I33 Rops) (I33 Rops) A (mtr22 A) (0,0)) as (_ & _ & -> & _).
+  pose proof (proj1 (SO2_matrix A) HA) as [HI _].
+  repeat split; auto using SO2_mul, SO2_tr.
+Qed.
+Print Assumptions C16_SO2_group.
+Example C16_SO2_nonvacuous : SO2 (rot2_cs Rops (cos 1) (sin 1)).
+Proof. apply SO2_rot2, cs_unit. Qed.
+
+Theorem C16_SE2_inverse_law : forall X : M33 R, SE2 X ->
+  tr_SE2_mul Rops X (tr_SE2_inv Rops X) = I33 Rops /\ tr_SE2_mul Rops (tr_SE2_inv Rops X) X = I33 Rops /\
+  tr_SE2_div Rops X X = I33 Rops /\ SE2 (tr_SE2_inv Rops X) /\
+  forall v : V2 R, tr_SE2_pt Rops (tr_SE2_inv Rops X) (tr_SE2_pt Rops X v) = v.
+Proof.
+  intros X [HR HL]. destruct_tuples. unfold lastrow3 in HL. injection HL; intros; subst.
+  unfold t2r2 in HR. pose proof (SO2_columns _ _ _ _ HR) as (Hc1 & Hc2 & Hc3).
+  unfold SO2 in HR. destruct HR as (H1 & H2 & H3 & H4).
+  split; [|split; [|split; [|split]]].
+  1-3: autounfold with smgen smref smlin; sm_simpl; tuple_eq ltac:(nsatz).
+  - unfold SE2, SO2. autounfold with smgen smlin; sm_simpl. split; [repeat split; nsatz | reflexivity].
+  - intros v. destruct_tuples. autounfold with smgen smref smlin; sm_simpl. tuple_eq ltac:(nsatz).
+Qed.
+Print Assumptions C16_SE2_inverse_law.
+Example C16_SE2_nonvacuous : SE2 (rt2tr2 Rops (rot2_cs Rops (cos 1) (sin 1)) (2,3)).
+Proof. unfold SE2. lin_simpl. split; [apply (SO2_rot2 (cos 1) (sin 1)), cs_unit | reflexivity]. Qed.
